@@ -29,6 +29,7 @@
 #include <set>
 #include <list>
 
+#include "libavoid/hyperedgetree.h"
 
 namespace Avoid {
 
@@ -42,9 +43,6 @@ class VertInf;
 
 typedef std::list<ShiftSegment *> ShiftSegmentList;
 typedef std::map<JunctionRef *, ShiftSegmentList> RootSegmentsMap;
-typedef std::map<JunctionRef *, HyperedgeTreeNode *>
-        JunctionHyperedgeTreeNodeMap;
-typedef std::set<JunctionRef *> JunctionSet;
 typedef std::list<ConnRef *> ConnRefList;
 typedef std::list<JunctionRef *> JunctionRefList;
 
